@@ -89,6 +89,14 @@ def _box_reference(members, unit, m, rng):
     return pts, 1.0 / np.maximum(mult, 1), vol.sum()
 
 
+def _z(v, v_ref, sd):
+    """z-score that stays meaningful when both Monte-Carlo errors vanish (a single member whose region is exactly its
+    bounding box: nothing is ever rejected on either side; the reference boxes are padded by 1e-9, hence 1e-6)."""
+    if sd <= 1e-12 * max(abs(v), abs(v_ref)):
+        return 0.0 if abs(v - v_ref) <= 1e-6 * max(abs(v), abs(v_ref)) else float(np.sign(v - v_ref) * np.inf)
+    return float((v - v_ref) / sd)
+
+
 def _multiplicity(members, y):
     return np.sum([b.contains(y) for b in members], axis=0)
 
@@ -223,14 +231,14 @@ def run_case(spec):
         if early is not None:
             v_e, n_e, r_e = np.exp(early[0]), early[1], early[2]
             rv = (r_e / n_e) / max(n_e - r_e, 1)
-            z_e = (v_e - v_ref) / np.sqrt(v_e ** 2 * rv + v_ref_sd ** 2)
+            z_e = _z(v_e, v_ref, np.sqrt(v_e ** 2 * rv + v_ref_sd ** 2))
             obs['z_volume_after_trim_abs_max'] = abs(float(z_e))
             if abs(z_e) > Z_MAX:
                 viols.append(dict(key='bound.volume-miscalibrated-after-trim.' + kind,
                                   what='right after trim() exp(log_v) = %.6g (from %d proposals) but the measure of '
                                   '{contains} is %.6g +- %.2g (z = %.1f)' % (v_e, n_e, v_ref, v_ref_sd, z_e), z=float(z_e)))
         v = np.exp(log_v)
-        z = (v - v_ref) / np.sqrt(v ** 2 * rel_var + v_ref_sd ** 2)
+        z = _z(v, v_ref, np.sqrt(v ** 2 * rel_var + v_ref_sd ** 2))
         obs['z_volume_abs_max'] = abs(float(z))
         if abs(z) > Z_MAX:
             viols.append(dict(key='bound.volume-miscalibrated.' + kind,
